@@ -25,6 +25,8 @@ pub enum E {
     /// other leaf kinds (only in the leaf-kind sweep)
     Val,
     Func(Box<E>),
+    /// COALESCE with a single argument (a function call is an atom whatever its argument looks like)
+    Coalesce1(Box<E>),
     Tuple(Box<E>, Box<E>),
     SubQ,
     Case(Box<E>, Box<E>, Box<E>),
@@ -122,6 +124,9 @@ pub fn ops(d: Dialect) -> Vec<OpDef> {
             v.push(s("Match", SqliteBinOper::Match, "MATCH"));
             v.push(s("GetJsonField", SqliteBinOper::GetJsonField, "->"));
             v.push(s("CastJsonField", SqliteBinOper::CastJsonField, "->>"));
+            // IS / IS NOT with an arbitrary right operand is SQLite grammar only (same level as = and <>)
+            v.push(o("Is", BinOper::Is, "IS", Class::Other));
+            v.push(o("IsNot", BinOper::IsNot, "IS NOT", Class::Other));
             v.push(o("Custom(||)", BinOper::Custom("||"), "||", Class::Other));
             v.push(o("Custom(==)", BinOper::Custom("=="), "==", Class::Other));
         }
@@ -147,6 +152,7 @@ pub fn build(e: &E, d: Dialect, ops: &[OpDef], next: &mut usize) -> SimpleExpr {
             Expr::val(40 + *next as i32).into()
         }
         E::Func(x) => Func::max(build(x, d, ops, next)).into(),
+        E::Coalesce1(x) => Func::coalesce([build(x, d, ops, next)]).into(),
         E::Tuple(a, b) => {
             let a = build(a, d, ops, next);
             let b = build(b, d, ops, next);
@@ -221,6 +227,7 @@ pub fn expected(e: &E, d: Dialect, ops: &[OpDef], next: &mut usize) -> PExpr {
             PExpr::Num((40 + *next as i32).to_string())
         }
         E::Func(x) => PExpr::Func("MAX".into(), vec![(false, expected(x, d, ops, next))]),
+        E::Coalesce1(x) => PExpr::Func("COALESCE".into(), vec![(false, expected(x, d, ops, next))]),
         E::Tuple(a, c) => {
             let a = expected(a, d, ops, next);
             let c = expected(c, d, ops, next);
@@ -239,6 +246,8 @@ pub fn expected(e: &E, d: Dialect, ops: &[OpDef], next: &mut usize) -> PExpr {
             let r = expected(r, d, ops, next);
             if ops[*i].like_family {
                 PExpr::Like(ops[*i].tok.into(), b(l), b(r), None)
+            } else if ops[*i].tok == "IS" || ops[*i].tok == "IS NOT" {
+                PExpr::Is(ops[*i].tok == "IS NOT", b(l), b(r))
             } else {
                 PExpr::Bin(ops[*i].tok.into(), b(l), b(r))
             }
@@ -272,7 +281,7 @@ pub fn expected(e: &E, d: Dialect, ops: &[OpDef], next: &mut usize) -> PExpr {
 fn kids(e: &E) -> Vec<&E> {
     match e {
         E::Leaf | E::Val | E::SubQ | E::Kw => vec![],
-        E::Func(x) | E::Not(x) | E::IsNull(_, x) | E::In(_, x) | E::LikeEsc(_, x) | E::Cast(x) | E::AsEnum(x) => vec![x],
+        E::Func(x) | E::Coalesce1(x) | E::Not(x) | E::IsNull(_, x) | E::In(_, x) | E::LikeEsc(_, x) | E::Cast(x) | E::AsEnum(x) => vec![x],
         E::Tuple(a, b) | E::Bin(_, a, b) => vec![a, b],
         E::Case(a, b, c) | E::Between(_, a, b, c) => vec![a, b, c],
     }
@@ -309,6 +318,7 @@ pub fn show(e: &E, ops: &[OpDef]) -> String {
         E::SubQ => "(subquery)".into(),
         E::Kw => "CURRENT_DATE".into(),
         E::Func(x) => format!("MAX({})", show(x, ops)),
+        E::Coalesce1(x) => format!("COALESCE({})", show(x, ops)),
         E::Tuple(a, b) => format!("tuple({}, {})", show(a, ops), show(b, ops)),
         E::Case(a, b, c) => format!("case({}, {}, {})", show(a, ops), show(b, ops), show(c, ops)),
         E::Bin(i, l, r) => format!("{}({}, {})", ops[*i].name, show(l, ops), show(r, ops)),
@@ -424,6 +434,7 @@ pub enum Ctor {
     Cast,
     AsEnum,
     Func,
+    Coalesce1,
     Tuple,
     Case,
 }
@@ -446,13 +457,14 @@ fn ctor_apply(c: &Ctor, mut k: Vec<E>) -> E {
         Ctor::Cast => E::Cast(p()),
         Ctor::AsEnum => E::AsEnum(p()),
         Ctor::Func => E::Func(p()),
+        Ctor::Coalesce1 => E::Coalesce1(p()),
         Ctor::Tuple => E::Tuple(p(), p()),
         Ctor::Case => E::Case(p(), p(), p()),
     }
 }
 fn ctors(ops: &[OpDef], only: Option<&[usize]>) -> Vec<Ctor> {
     let mut v: Vec<Ctor> = (0..ops.len()).filter(|i| only.map_or(true, |o| o.contains(i))).map(Ctor::Bin).collect();
-    v.extend([Ctor::Not, Ctor::IsNull(false), Ctor::IsNull(true), Ctor::In(false), Ctor::In(true), Ctor::Between(false), Ctor::Between(true), Ctor::LikeEsc(false), Ctor::LikeEsc(true), Ctor::Cast, Ctor::AsEnum]);
+    v.extend([Ctor::Not, Ctor::IsNull(false), Ctor::IsNull(true), Ctor::In(false), Ctor::In(true), Ctor::Between(false), Ctor::Between(true), Ctor::LikeEsc(false), Ctor::LikeEsc(true), Ctor::Cast, Ctor::AsEnum, Ctor::Coalesce1]);
     v
 }
 
@@ -520,6 +532,7 @@ fn reductions(e: &E, ops: &[OpDef]) -> Vec<E> {
         let mut p = || Box::new(it.next().unwrap());
         match e {
             E::Func(_) => E::Func(p()),
+            E::Coalesce1(_) => E::Coalesce1(p()),
             E::Not(_) => E::Not(p()),
             E::IsNull(n, _) => E::IsNull(*n, p()),
             E::In(n, _) => E::In(*n, p()),
@@ -674,6 +687,7 @@ fn to_json(e: &E) -> serde_json::Value {
         E::SubQ => "SubQ".into(),
         E::Kw => "Kw".into(),
         E::Func(_) => "Func".into(),
+        E::Coalesce1(_) => "Coalesce1".into(),
         E::Tuple(..) => "Tuple".into(),
         E::Case(..) => "Case".into(),
         E::Bin(i, ..) => format!("Bin:{i}"),
@@ -707,6 +721,7 @@ fn from_json(j: &serde_json::Value) -> Option<E> {
         "Cast" => ctor_apply(&Ctor::Cast, ks),
         "AsEnum" => ctor_apply(&Ctor::AsEnum, ks),
         "Func" => ctor_apply(&Ctor::Func, ks),
+        "Coalesce1" => ctor_apply(&Ctor::Coalesce1, ks),
         "Tuple" => ctor_apply(&Ctor::Tuple, ks),
         "Case" => ctor_apply(&Ctor::Case, ks),
         _ => return None,
